@@ -18,7 +18,36 @@ func RunW1(p *Profile, plan, sched *simrt.Source, trace bool) *RunOut {
 	g := &G{S: plan}
 	o := &RunOut{}
 	cfg := g.GenConfig(trace)
+	carry := false
+	if p.CarryPct > 0 && g.Pct(p.CarryPct) {
+		carry = true
+		// a carry-over probe: every call of the run goes through the same entry point, the rules are short
+		// writers and readers of the same few names, and most calls end early (a failing rule, a raised stop
+		// tag).  Whatever an entry point keeps from a call that did not run to its end, the first rule of the
+		// next call through that entry point is there to see.
+		pp := *p
+		seen := map[int]bool{}
+		var distinct []int
+		for _, m := range p.Methods {
+			if !seen[m] {
+				seen[m] = true
+				distinct = append(distinct, m)
+			}
+		}
+		pp.Methods = []int{g.PickInt(distinct)}
+		pp.Secs = p.CarrySecs
+		pp.FaultPct, pp.StopPct, pp.GatePct = 60, 40, 0
+		p = &pp
+	}
 	rules := g.GenRuleSet(p)
+	if carry && len(rules) >= 2 && g.Pct(60) {
+		// make sure of one writer that can end the call early right after its assignment and of one reader
+		// of the same name (their saliences, and so who runs first, stay as drawn)
+		wi := g.Intn(len(rules))
+		ri := (wi + 1 + g.Intn(len(rules)-1)) % len(rules)
+		rules[wi].Secs = []Sec{{Kind: SecLocal}, {Kind: g.PickInt([]int{SecCall, SecStop, SecStop, SecIfKind})}}
+		rules[ri].Secs = []Sec{{Kind: SecReader}}
+	}
 	// text order is a generated choice too (it must not matter)
 	order := make([]*RuleDef, len(rules))
 	copy(order, rules)
